@@ -111,10 +111,9 @@ CONFIGS = {}
 CONFIGS['rooms'] = dict(
     transports=['t1', 't2'], ns_h=['/', '/a'], ns_all=['/', '/a', '/x'],
     ns_api=['/', '/a'], max_sid=3, rooms=['r1', 's1'],
-    emit_to=[('none', []), ('one', ['r1']), ('one', ['s1']),
-             ('one', ['s3']), ('list', ['r1', 's1']), ('list', ['r1', 'r1']),
-             ('list', ['s2', 'r1', 's3'])],
-    emit_skip=[('none', []), ('one', ['s1']), ('list', ['s1', 's2'])],
+    emit_to=[('none', []), ('one', ['r1']), ('one', ['s3']),
+             ('list', ['r1', 's1']), ('list', ['s2', 'r1', 's3'])],
+    emit_skip=[('none', []), ('list', ['s1', 's2'])],
     alpha='rooms')
 # three rooms, one namespace
 CONFIGS['rooms3'] = dict(
@@ -201,6 +200,9 @@ for _ah in (False, True):
     for _hk in ('fn', 'class'):
         CONFIGS['events_%s_%s' % ('bg' if _ah else 'inl', _hk)] = dict(
             _EV, async_handlers=_ah, hkind=_hk)
+CONFIGS['events_t_fn'] = dict(_EV, max_sid=2, hkind='fn')
+CONFIGS['events_t_class_bg'] = dict(_EV, max_sid=2, hkind='class',
+                                    async_handlers=True)
 CONFIGS['events_quick'] = dict(_EV, max_sid=2, ns_h=['/', '/a'],
                                ns_all=['/', '/a'], ids=[-1, 0, 7],
                                evs=['e_none', 'e_v', 'e_z', 'e_el', 'e_h',
@@ -235,6 +237,10 @@ def acks(cfg):
 CONFIGS['acks'] = dict(transports=['t1', 't2'], ns_h=['/', '/a'],
                        ns_all=['/', '/a'], ns_api=['/', '/a'], max_sid=3,
                        max_ack=2, ack_ids=[0, 1, 2, 3, 99], alpha='acks')
+# (the exhaustive tiers stay within ~10^6 edges; larger scopes are walked)
+CONFIGS['acks_t'] = dict(CONFIGS['acks'], ack_ids=[0, 1, 2, 99],
+                         ack_args=[[], ['v1', 'v2']], ns_h=['/'],
+                         ns_api=['/'], ns_opt=['/', '/a'])
 CONFIGS['acks_quick'] = dict(CONFIGS['acks'], transports=['t1', 't2'],
                              ns_h=['/'], ns_all=['/', '/a'], ns_api=['/'],
                              ns_opt=['/', '/a'], max_sid=2, max_ack=2,
@@ -259,6 +265,7 @@ def sessions(cfg):
 CONFIGS['sessions'] = dict(transports=['t1', 't2'], ns_h=['/', '/a'],
                            ns_all=['/', '/a'], ns_api=['/', '/a'], max_sid=4,
                            alpha='sessions', dev=['D6'])
+CONFIGS['sessions_t'] = dict(CONFIGS['sessions'], max_sid=3)
 CONFIGS['sessions_quick'] = dict(CONFIGS['sessions'], max_sid=3,
                                  block_suffix='')
 # two different values per (client, namespace): a save that does not REPLACE
@@ -302,6 +309,8 @@ CONFIGS['residue'] = dict(transports=['t1', 't2'], ns_h=['/', '/a'],
                                             'auth:raise'],
                           alpha='residue', dev=['D3', 'D6'])
 CONFIGS['residue'] = dict(CONFIGS['residue'], plain_transports=['t2'])
+CONFIGS['residue_t'] = dict(CONFIGS['residue'], transports=['t1'],
+                            plain_transports=[], max_sid=3)
 CONFIGS['residue_quick'] = dict(CONFIGS['residue'], transports=['t1'],
                                 max_sid=2)
 
@@ -362,6 +371,8 @@ CONFIGS['hostile'] = dict(transports=['t1', 't2', 't3'], offender='t1',
                           ns_h=['/', '/a'], ns_all=['/', '/a'],
                           ns_api=['/', '/a'], max_sid=3, max_ack=2,
                           alpha='hostile', dev=['D6'])
+CONFIGS['hostile_t'] = dict(CONFIGS['hostile'], transports=['t1', 't2'],
+                             max_sid=2, max_ack=1)
 CONFIGS['hostile_quick'] = dict(CONFIGS['hostile'], transports=['t1', 't2'],
                                 ns_api=['/'], max_sid=2, max_ack=1,
                                 raw=['empty', 'type9', 'connerr', 'badjson',
@@ -432,6 +443,8 @@ CONFIGS['calls_inline'] = dict(CONFIGS['calls_quick'], async_handlers=False,
 CONFIGS['calls'] = dict(CONFIGS['calls_quick'], ns_h=['/', '/a'],
                         ns_all=['/', '/a'], ns_api=['/', '/a'], max_sid=3,
                         call_ack_ids=[0, 1, 2, 3])
+CONFIGS['calls_t'] = dict(CONFIGS['calls_quick'], max_sid=3,
+                          call_ack_ids=[0, 1, 2])
 
 # ---- larger scopes, explored by seeded random histories only (walks)
 CONFIGS['rooms_big'] = dict(
